@@ -28,6 +28,27 @@ PROPS = {
         "level_note": "Trusted: the 30-line specification rank in harness/refsearch/value.go. Float part is sampled, not exhaustive.",
         "technique": "property-based testing (rapid) + exhaustive enumeration of the discrete scores against a specification rank oracle",
     },
+    "C01": {
+        "title": "legal move generation = FIDE legal moves",
+        "run": "^TestC01_",
+        "level": "exploration",
+        "shards": 16,
+        "timeout": 420,
+        "thorough_scale": 15,
+        "rule": "C01/walk: every node of generated games (initial position, 80-position seed pool, synthetic starts; move choice "
+                "biased towards castling, e.p., promotions, checks, rook-home captures) - engine LegalMoves, the ok-flag of "
+                "Position.Move and Board.PushMove for every pseudo-legal move, and the type/piece/capture/promotion metadata of "
+                "every legal move are compared with the independent mailbox oracle. C01/synth: synthetic odd-material positions. "
+                "C01/perft: differential divide-perft depth 2 (quick) / 2-3 (thorough). Non-trivial = distinct positions (placement, "
+                "side, rights, e.p.) where pseudo-legal != legal (pin, check evasion, king walking into attack) or a castle / e.p. / "
+                "promotion is pseudo-legally available; perft: subtree > 100 nodes. evaluations = positions judged.",
+        "assumptions": COMMON_ASSUMPTIONS + ["only the side to move is judged; for e.p. the capture field may be unset or Pawn (documented 'not set')"],
+        "level_text": "Exploration: tens of thousands of positions per quick run, each compared move-by-move (set equality both "
+                      "directions, duplicates, legality flag, metadata) with an oracle that shares no code with the repository; "
+                      "differential perft over generated roots reaches positions the six classical perft trees do not.",
+        "level_note": "Trusted: harness/oracle (mailbox rules, perft-validated on the six classical positions at every run) and harness/bridge.",
+        "technique": "property-based testing (rapid): generated games and synthetic positions, differential oracle + differential perft",
+    },
 }
 
 # Properties not claimed, with the reason (kept current).
